@@ -7,7 +7,9 @@ ID = 'C07'
 COQ_PROPS = ['Props/C07.v']
 COQ_IMPORTS = ['Prims', 'CaseLib', 'BitsCore', 'Search']
 RULE = ('data random/periodic/all-zero/all-one with planted pattern copies x patterns (absent, once, overlapping, whole-byte and not, empty) x start/end (None, negative, unaligned, '
-        'empty window, invalid) x count x bytealigned in {None,False,True} x options.bytealigned; every pattern/window of every data up to 10 bits exhaustively in thorough; '
+        'empty window, invalid) x count x bytealigned in {None,False,True} x options.bytealigned; patterns that occur only where the storage holds bits that are not content '
+        '(zero padding after a length that is not a multiple of 8, neighbours of an offset window, occurrences cut by start/end) for every operation, class, construction route, '
+        'pattern type and both bit numberings; every pattern/window of every data up to 10 bits exhaustively in thorough; '
         'non-trivial = at least one occurrence of the pattern in the data; distinct by arguments')
 ASSUMPTIONS = ['bitarray.search/find and bytes.find behave as Prims.search_all / Search.bytes_find (exercised by the same cases)', 'msb0 mode (lsb0 is C12)']
 OPS = ['find', 'rfind', 'findall', 'contains', 'startswith', 'endswith', 'count', 'cut', 'split', 'replace']
@@ -31,6 +33,115 @@ def rand_window(rng, n):
     a, b = one(), one()
     if a is not None and b is not None and a >= 0 and b >= 0 and a > b and rng.random() < 0.7: a, b = b, a
     return a, b
+
+# ---- bits that are NOT content: the zero padding of the last byte of the byte image (tobytes(), files, buffers) and the neighbours of a window ----
+# What each construction route of common.build leaves around the content in the storage the object is built from, up to the next byte boundary.
+# Only used to pick plausible patterns; the oracle never looks at it.
+def surroundings(route, bits):
+    n = len(bits)
+    z = lambda k: '0' * ((-k) % 8)
+    if n == 0: return '', ''
+    if route == 'bytes': return '000', z(3 + n)
+    if route == 'bytesio': return '11111', '1' * ((-(5 + n)) % 8)
+    if route == 'slice': return '101', '0110' + z(n + 7)
+    if route == 'bitarray': return ('1', '0' + z(n + 2)) if n % 2 else ('', z(n))
+    if route == 'file': return '10110', '011' + z(n + 8)
+    if route == 'filehandle_rw': return '110', z(3 + n)
+    return '', z(n)
+
+OUTSIDE_ROUTES = ['bin', 'bin', 'bin', 'auto', 'bytes', 'bytesio', 'slice', 'bitarray', 'iter', 'copy', 'join', 'file', 'file_exact', 'filehandle_rw', 'filehandle_raw', 'bitarray_le']
+OUTSIDE_LENGTHS = list(range(1, 8)) + list(range(9, 16)) + [17, 20, 23, 25, 31, 33, 39, 41, 47, 49, 63, 65, 71, 95, 97, 127, 129, 255, 257]
+
+def outside_pattern(rng, data, pre, post):
+    """A pattern that occurs in pre + data + post + zeros (the storage) on a stretch that is not wholly content: it runs past the last content bit into
+    the padding / the bits after the window, or starts in the bits before the window.  Returns (pattern, position in the content where such a false
+    occurrence would start - may be negative or beyond the end)."""
+    n = len(data)
+    after = post + '0' * 40
+    r = rng.random()
+    pl = rng.choice([1, 2, 3, 4, 5, 7, 8, 8, 8, 16, 16, 24, 32, 9, 12, 15, 17, 40])
+    if r < 0.35 and post:
+        # the last whole bytes of the byte image: the last bits of the content and everything up to the byte boundary (sometimes a further byte of zeros)
+        pl = 8 * rng.choice([1, 1, 1, 2, 2, 3, 4, 5]); k = len(post) + (8 if pl > 8 and rng.random() < 0.15 else 0)
+        k = min(k, pl); take = min(pl - k, n)
+        return data[n - take:] + after[:k], n - take
+    if r < 0.62 or not pre:
+        # the last bits of the content followed by what comes after them; k = how far the pattern reaches beyond the end
+        k = rng.randrange(1, min(pl, len(after)) + 1)
+        take = min(pl - k, n)
+        return data[n - take:] + after[:k], n - take
+    if r < 0.8:
+        # what comes before the content followed by its first bits
+        k = rng.randrange(1, min(pl, len(pre)) + 1)
+        return pre[len(pre) - k:] + data[:pl - k], -k
+    if r < 0.9:
+        # a whole-byte pattern made of padding only / a one followed by padding
+        return rng.choice(['0' * 8, '1' + '0' * 7, '0' * 16, '1' * 8, '0' * 7 + '1', '0' * 24]), n - n % 8
+    # control: a stretch that really is content, at the very end or the very start
+    pl = min(pl, n)
+    q = rng.choice([n - pl, 0, max(0, n - pl - n % 8)])
+    return data[q:q + pl], q
+
+def gen_outside(rng, tier):
+    """Every search, test and split operation with patterns that would match only if bits outside the content (padding of a length that is not a multiple
+    of 8, neighbours of an offset window) were part of it, on all four classes, every construction route, both bit numberings, explicit and defaulted
+    bytealigned, windows that start where the false occurrence would start or end with the content."""
+    pairs = 80 if tier == 'quick' else 2500
+    for i in range(pairs):
+        route = rng.choice(OUTSIDE_ROUTES)
+        r = rng.random()
+        if r < 0.55: n = rng.choice(OUTSIDE_LENGTHS)
+        elif r < 0.85: n = rng.randrange(1, 90)
+        elif r < 0.93: n = 8 * rng.randrange(1, 9)          # whole bytes: only the neighbours of a window are outside
+        else: n = rng.choice([999, 1001, 2001, 3599] if tier == 'quick' else [999, 1001, 2001, 3599, 8191, 8193, 8199, 16385])
+        if n > 300 and route not in ('bin', 'bytes', 'slice', 'file', 'file_exact'): route = 'bin'
+        data = rand_bits(rng, n, rng.choice(['rand', 'rand', 'rand', 'ones', 'zeros', 'periodic', 'sparse']) if n <= 3000 else 'rand')      # (the quadratic reference scan: few occurrences in long data)
+        if rng.random() < 0.3 and n % 8:      # the last partial byte ends in ones / zeros / an isolated one
+            t = n % 8; data = data[:n - t] + rng.choice(['1' * t, '0' * t, '1' + '0' * (t - 1), '0' * (t - 1) + '1'])
+        pre, post = surroundings(route, data)
+        pat, q = outside_pattern(rng, data, pre, post)
+        forced = None
+        if i % 6 == 5 and n >= 2:
+            # the same idea for windows: an occurrence that is content but not wholly inside [start, end) - the window cuts k bits off one of its ends
+            pl = rng.choice([1, 2, 3, 5, 8, 8, 16, 16, 24, 9]); pl = min(pl, n)
+            q = rng.randrange(0, n - pl + 1)
+            if rng.random() < 0.6: q -= q % 8
+            pat = data[q:q + pl]; k = rng.randrange(1, min(pl, 8) + 1)
+            forced = rng.choice([(rng.choice([None, q, q - q % 8, 0]), q + pl - k), (q + k, rng.choice([None, n, q + pl])), (rng.choice([None, q]), q + pl - k - n if q + pl - k < n else None)])
+        if not pat: continue
+        pl = len(pat)
+        base = {'data': data, 'pat': pat, 'route': route, 'opt_ba': False, 'ptype': 'bits'}
+        def window(op):
+            if forced and rng.random() < 0.85: return forced
+            qq = min(max(q, 0), n)
+            if op == 'startswith' and rng.random() < 0.6: return (qq if qq else rng.choice([None, 0])), rng.choice([None, None, n])
+            if op == 'endswith' and rng.random() < 0.6: return rng.choice([None, None, qq, qq - qq % 8]), rng.choice([None, None, n])
+            # start at (or just before, or on the byte boundary before) the place where the false occurrence would begin; end None, the length, or anywhere
+            a = rng.choice([None, None, qq, qq - qq % 8, max(0, qq - 1), rng.randrange(0, n + 1), qq - n if qq < n else None])
+            b = rng.choice([None, None, None, n, rng.randrange(0, n + 1), -1 if n > 1 else None])
+            if a is not None and b is not None:
+                a2 = a + n if a < 0 else a; b2 = b + n if b < 0 else b
+                if a2 > b2: b = None
+            return a, b
+        ops = ['contains', 'find', 'rfind', 'findall', 'startswith', 'endswith', 'split', 'replace']
+        if n > 3000 and pl < 12: ops = ops[:6]         # (the reference for split / replace is quadratic in the number of occurrences)
+        if tier != 'quick' or n > 300: ops = rng.sample(ops, 4)
+        for op in ops:
+            # once with the default window, and often once more with a window placed around the spot
+            for a, b in [(None, None)] + ([window(op)] if op != 'contains' and (forced or rng.random() < 0.45) else []):
+                c = dict(base, op=op, cls=rng.choice(MUTABLE if op == 'replace' else CLASSES), start=a, end=b, ba=rng.choice([None, None, False, True, True]))
+                if rng.random() < 0.2: c['opt_ba'] = True
+                pts = ['bits', 'bits', 'str', 'bitarray'] + (['bytes', 'bytes', 'bytearray'] if pl % 8 == 0 else [])
+                c['ptype'] = rng.choice(pts)
+                if op in ('findall', 'split', 'replace'): c['count'] = rng.choice([None, None, None, 1, 2])
+                if op == 'replace': c['new'] = rand_bits(rng, rng.choice([0, 1, pl, 8]))
+                if op in ('contains', 'find', 'rfind', 'findall') and rng.random() < 0.25:
+                    c['lsb0'] = True; c['ptype'] = 'bits'          # the storage is the same, positions are counted from the other end
+                yield c
+        # the whole-content counterparts: counting set / unset bits (the padding holds unset bits) and fixed-size pieces (the last piece is not padded)
+        yield dict(base, op='count', cls=rng.choice(CLASSES), v=rng.choice([0, 0, 1, False, True]), start=None, end=None, ba=None, lsb0=rng.random() < 0.3)
+        a, b = window('cut') if rng.random() < 0.4 else (None, None)
+        yield dict(base, op='cut', cls=rng.choice(CLASSES), bits=rng.choice([8, 8, 8, 16, 3, 5, max(1, n - 1), n + 3]), start=a, end=b, count=rng.choice([None, None, None, 1000, 2]), ba=None)
 
 def gen_cases(rng, tier):
     N = 700 if tier == 'quick' else 12000
@@ -125,6 +236,7 @@ def gen_cases(rng, tier):
                 m = rng.choice(['iand', 'ior', 'ixor', 'iand', 'ior', 'ixor', 'invert', 'append', 'setslice', 'reverse', 'ilshift', 'overwrite', 'del', 'byteswap', 'setbit', 'imul'])
                 steps.append({'mut': m, 'mask': rand_bits(rng, 1, 'rand') , 'seed': rng.randrange(1 << 30)})
         yield {'op': 'history', 'cls': rng.choice(MUTABLE), 'data': data, 'steps': steps, 'opt_ba': False, 'pat': 'x', 'ba': None, 'start': None, 'end': None}
+    yield from gen_outside(rng, tier)
     if tier == 'thorough':
         for n in range(0, 9):
             for v in range(1 << n):
@@ -196,7 +308,7 @@ def run_impl(c):
     import bitstring
     if c['op'] == 'history': return run_history(c)
     bitstring.options.bytealigned = c['opt_ba']
-    s = build(c['cls'], c['data'], 'bin')
+    s = build(c['cls'], c['data'], c.get('route', 'bin'))
     op = c['op']
     kw = {}
     if c['ba'] is not None: kw['bytealigned'] = c['ba']
@@ -244,7 +356,7 @@ def oracle(c, obs):
     exp = expected(c)
     if tuple(obs) != tuple(exp):
         return (f"{c['cls']}.{c['op']} data={c['data'][:80]!r}{'...' if len(c['data']) > 80 else ''}({len(c['data'])}) pat={c['pat']!r} "
-                f"start={c['start']} end={c['end']} count={c.get('count')} bytealigned={c['ba']} options.bytealigned={c['opt_ba']}: got {str(obs)[:160]}, brute force gives {str(exp)[:160]}")
+                f"start={c['start']} end={c['end']} count={c.get('count')} bytealigned={c['ba']} options.bytealigned={c['opt_ba']}{' lsb0' if c.get('lsb0') else ''}{' built via ' + c['route'] if c.get('route', 'bin') != 'bin' else ''}{' pattern given as ' + c['ptype'] if c.get('ptype', 'bits') != 'bits' else ''}: got {str(obs)[:160]}, brute force gives {str(exp)[:160]}")
     return None
 
 def nontrivial(c, obs):
